@@ -35,6 +35,7 @@ ASSUMPTIONS = ["health is judged against the servers that answer (MODE_CHECK ask
                "list(unrecoverable)[0] in _make_checker_results is an arbitrary set element: the counters of a file with "
                "no recoverable version and several unrecoverable ones are not compared"]
 
+import json
 import os
 import struct
 
@@ -727,6 +728,34 @@ def truth_before_unrec(before, rec_before):
 
 
 
+# fixed corpus (runs first, independent of the seed): one scenario per known mechanism
+GRID_CORPUS = [
+    # C14-b: damage that only verify can see; every other share intact (SDMF and MDMF; block data and hash-tree root)
+    {"k": 1, "n": 3, "servers": 4, "fmt": "s", "sched": 11, "policy": "fifo", "contents": ["00112233445566778899aabb"],
+     "damage": [["flip-data", 1, 7]], "verify": True, "force": False},
+    {"k": 2, "n": 4, "servers": 5, "fmt": "m", "sched": 12, "policy": "fifo",
+     "contents": ["00112233445566778899aabb", "ffeeddccbbaa99887766554433221100ffee"],
+     "damage": [["flip-hash", 2, 5]], "verify": True, "force": False},
+    # C14-a on the grid: the single surviving share number of the newest version is held by several servers
+    {"k": 2, "n": 3, "servers": 3, "fmt": "s", "sched": 13, "policy": "fifo",
+     "contents": ["0011223344556677", "8899aabbccddeeff0011"], "damage": [["stale", 0, [1, 2]]], "verify": False,
+     "force": False},
+]
+OFFLINE_CORPUS = [
+    # C14-c: k stale shares at the head of the permuted list, the newest version further down
+    {"family": "offline", "servers": 12, "k": 2, "n": 4, "fmt": "s", "sched": 1, "policy": "fifo",
+     "contents": ["4f4c4420636f6e74656e7473", "4e455720636f6e74656e7473206d75737420737572766976652061207265706169"],
+     "offline": [[2, 3, 4, 5, 6, 7], [0, 1]], "how": "repair", "verify": False, "force": False},
+    {"family": "offline", "servers": 10, "k": 1, "n": 2, "fmt": "m", "sched": 27665844, "policy": "random",
+     "contents": ["76657273696f6e2030208c2a1b2d7a7992d7c6118dbf7eacb3efd856b042",
+                  "76657273696f6e2031204950cabf34f2eb07c6cf4f77a59baf9883c84f2c3b548f4f575a286e8314cdc83d6adb025c88bb18"],
+     "offline": [[5], [0, 2, 4, 6, 7, 8, 9]], "how": "repair", "verify": False, "force": False},
+    {"family": "offline", "servers": 12, "k": 2, "n": 4, "fmt": "m", "sched": 2, "policy": "fifo",
+     "contents": ["4f4c4420636f6e74656e7473", "4e455720636f6e74656e7473206d75737420737572766976652061207265706169"],
+     "offline": [[2, 3, 4, 5, 6, 7], [0, 1]], "how": "check_and_repair", "verify": False, "force": False},
+]
+
+
 def replay_case(replay):
     """the case of a replay file: a violation's case, or the case of the first recorded disagreement"""
     if replay.get("case"):
@@ -750,17 +779,24 @@ def run(ctx):
             sc["damage"] = [tuple(d) for d in sc["damage"]]
             scs = [sc]
     else:
+        import os
+        corpus_only = bool(os.environ.get("VERIF_CORPUS_ONLY"))
         cases = c11._corpus()
-        for _ in range(ctx.budget(500, 10000)):
+        for _ in range(0 if corpus_only else ctx.budget(500, 10000)):
             vers = c11.gen_versions(ctx.rng)
             cases.append((vers, c11.gen_map_ops(ctx.rng, vers)))
-        scs = [gen_scenario(ctx.rng) for _ in range(ctx.budget(70, 1200))]
+        scs = [json.loads(json.dumps(sc)) for sc in GRID_CORPUS]
+        for sc in scs:
+            sc["damage"] = [tuple(d) for d in sc["damage"]]
+        scs += [gen_scenario(ctx.rng) for _ in range(0 if corpus_only else ctx.budget(70, 1200))]
     run_function_level(ctx, cases)
     acc = {"lines": [], "impl": [], "cases": []}
     for sc in scs:
         run_scenario(ctx, sc, acc)
     if not ctx.replay:
-        for _ in range(ctx.budget(40, 600)):
+        for sc in OFFLINE_CORPUS:
+            run_offline_scenario(ctx, json.loads(json.dumps(sc)))
+        for _ in range(0 if corpus_only else ctx.budget(40, 600)):
             run_offline_scenario(ctx, gen_offline(ctx.rng))
     model = ctx.model(acc["lines"])
     if model is not None:
